@@ -24,6 +24,42 @@ def base_cases(thorough):
     for fam, cs in by.items():
       st = step if fam not in ('EXPR', 'FUNC', 'INJ', 'STR') else (1 if fam in ('EXPR', 'STR') else max(1, step // 4))
       out += cs[::st]
+  return out + scope_cases(thorough)
+
+
+def scope_cases(thorough):
+  """2-4 sibling aggregating expressions in one rule that reuse one local variable name at different types (Num / Str / record): every
+  combine is its own scope, so all of these are well typed, in every conjunct order"""
+  from ..lang import Comb
+  x, y = V('x'), V('y')
+  local = {
+    'N': lambda: Comb('Sum', y, (Lit('A', x, y),)),
+    'S': lambda: Comb('List', y, (Lit('S', y),)),
+    'R': lambda: Comb('Sum', ('fld', y, 'a'), (('in', y, ('list', (('rec', (('a', x),)), ('rec', (('a', N(1)),))))),)),
+  }
+  out = []
+  for k in ((2, 3, 4) if thorough else (2, 3)):
+    for pat in itertools.product('NSR', repeat=k):
+      if len(set(pat)) < 2: continue
+      vs = [V('v%d' % i) for i in range(k)]
+      body = (Lit('B', x),) + tuple(Eq(v, local[t]()) for v, t in zip(vs, pat))
+      out.append(Case('SCOPES', Program([R('T', x, *vs, body=body)]), ['T'], schema='ABS', info=dict(pattern=''.join(pat))))
+  # the same through the `v Op= (e :- body)` spelling and inside a negation next to a combine
+  out.append(Case('SCOPES', Program([R('T', x, V('a'), V('b'), V('c'), body=(Lit('B', x), ('aggeq', 'a', 'Sum', y, (Lit('A', x, y),)), ('aggeq', 'b', 'List', y, (Lit('S', y),)), ('aggeq', 'c', 'Max', y, (Lit('A', y, x),))))]), ['T'], schema='ABS'))
+  out.append(Case('SCOPES', Program([R('T', x, V('a'), V('c'), body=(Lit('B', x), Eq(V('a'), local['N']()), lang.Not(Lit('S', y), Cmp('==', y, S('a'))), Eq(V('c'), local['N']())))]), ['T'], schema='ABS'))
+  # positional arguments are the named arguments col0, col1, ... (docs/learn/logica.md): both spellings, both directions
+  z = V('z')
+  W = R('W', x, Bin('+', y, N(1)), body=(Lit('A', x, y),))
+  Wn = R('W', named={'col0': x, 'col1': S('k')}, body=(Lit('B', x),))
+  for anns in ([], [Ann('@NoInject(W);')]):
+    out.append(Case('SYNONYM', Program([W] + anns + [R('T', x, body=(Lit('W', col0=x),))]), ['T'], schema='ABS'))
+    out.append(Case('SYNONYM', Program([W] + anns + [R('T', x, z, body=(Lit('W', col1=z, col0=x),))]), ['T'], schema='ABS'))
+    out.append(Case('SYNONYM', Program([W] + anns + [R('T', x, z, body=(Lit('W', x, col1=z),))]), ['T'], schema='ABS'))
+    out.append(Case('SYNONYM', Program([Wn] + anns + [R('T', x, z, body=(Lit('W', x, z),))]), ['T'], schema='ABS'))
+    out.append(Case('SYNONYM', Program([Wn] + anns + [R('T', z, body=(Lit('W', col1=z),))]), ['T'], schema='ABS'))
+  out.append(Case('SYNONYM', Program([R('T', y, body=(Lit('A', col1=y),))]), ['T'], schema='ABS'))
+  out.append(Case('SYNONYM', Program([R('T', y, x, body=(Lit('A', col1=y, col0=x), Lit('S', col0=z)))]), ['T'], schema='ABS'))
+  out.append(Case('SYNONYM', Program([R('F', x, value=Bin('+', x, N(1))), R('T', y, body=(Lit('B', x), Eq(y, Call('F', col0=x))))]), ['T'], schema='ABS'))
   return out
 
 
